@@ -29,7 +29,11 @@ structure Contract {V : Type} (ops : Ops V) (g : Graph) : Prop where
   idxNodup : ∀ i, (ops.inPlaceIdx i).Nodup
   /-- operators with subgraphs (`If`, `Loop`) do not run in place -/
   notSub : ∀ i, ops.inPlaceIdx i ≠ [] → ops.isSubgraph i = false
+  /-- `run_in_place` on the taken `(pos, value)`s — distinct positions, each of them a `None`
+  placeholder of `ins` — equals `run` on the list with the values put back. -/
   inPlace : ∀ i op, getOp g i = some op → ∀ taken ins full, taken ≠ [] →
+    (taken.map (fun t => t.1)).Nodup →
+    (∀ p v, (p, v) ∈ taken → ins[p]? = some none) →
     (∀ p ∈ taken.map (fun t => t.1), p ∈ ops.inPlaceIdx i ∨ op.commutative = true) →
     FillsFrom taken 0 ins full → ops.runInPlace i taken ins = ops.run i full []
 
@@ -39,6 +43,59 @@ theorem FillsFrom.nil_taken {V : Type} {pos : Nat} {ins full : List (Option V)}
   | nil => rfl
   | keep _ _ ih => rw [ih]
   | put hm _ _ => simp at hm
+
+/-- Taken positions inside the list are `None` placeholders. -/
+theorem FillsFrom.none_at {V : Type} {taken : List (Nat × V)} {pos : Nat} {ins full : List (Option V)}
+    (h : FillsFrom taken pos ins full) :
+    ∀ k v, (pos + k, v) ∈ taken → k < ins.length → ins[k]? = some none := by
+  induction h with
+  | nil => intro k v _ hk; simp at hk
+  | @keep p0 _ _ _ hkeep _ ih =>
+    intro k v hm hk
+    cases k with
+    | zero => exact absurd hm (hkeep v)
+    | succ k =>
+      simp only [List.getElem?_cons_succ]
+      apply ih k v
+      · have : p0 + 1 + k = p0 + (k + 1) := by omega
+        rw [this]; exact hm
+      · simpa using hk
+  | @put p0 _ _ _ _ _ ih =>
+    intro k v hm hk
+    cases k with
+    | zero => rfl
+    | succ k =>
+      simp only [List.getElem?_cons_succ]
+      apply ih k v
+      · have : p0 + 1 + k = p0 + (k + 1) := by omega
+        rw [this]; exact hm
+      · simpa using hk
+
+theorem collectInputs_length {V : Type} (r : Run V) (st : St V) (tp : List Nat) :
+    ∀ (l : List (Option Nat)) (pos : Nat) (ins : List (Option V)),
+      collectInputs r st tp l pos = some ins → ins.length = l.length := by
+  intro l
+  induction l with
+  | nil => intro pos ins h; simp only [collectInputs, Option.some.injEq] at h; rw [← h]; rfl
+  | cons oid rest ih =>
+    intro pos ins h
+    simp only [collectInputs] at h
+    have key : ∀ (x : Option V), Option.map (fun l => x :: l) (collectInputs r st tp rest (pos + 1)) = some ins →
+        ins.length = (oid :: rest).length := by
+      intro x hx
+      cases hc : collectInputs r st tp rest (pos + 1) with
+      | none => rw [hc] at hx; simp at hx
+      | some tl =>
+        rw [hc] at hx
+        simp only [Option.map_some, Option.some.injEq] at hx
+        rw [← hx]; simp [ih (pos + 1) tl hc]
+    split at h
+    · exact key none h
+    · split at h
+      · exact key none h
+      · split at h
+        · simp at h
+        · exact key _ h
 
 /-- The executor's input collection against the naive one. -/
 theorem inputs_sim {V : Type} (r : Run V) (lk : Nat → Option V) (st2 : St V)
